@@ -38,8 +38,9 @@ def tasks(tier, seed=0):
     out.append(task(B, "ob_assumptions", "balancer._get_assumptions/valid", ["C25"], tier=tier))
     out.append(task(B, "ob_handle_comparison", "balancer._handle_comparison/bounds", ["C25"], tier=tier))
     kl = sorted({l for f in common.findings_for("C25") for l in f.get("labels", [])})
+    kc = sorted({x for f in common.findings_for("C25") for x in f.get("cases", [])})
     n = 8
     for sh in range(n):
         out.append(task(B, "end_to_end", f"balancer.constraint_to_si/bounded#{sh}", ["C25"], kind="bounded", replay="vf.contracts.balancer:replay_e2e",
-                        seed=seed, w=4, budget_s=60 if tier == "quick" else 600, known_labels=kl, shard=sh, nshards=n))
+                        seed=seed, w=4, budget_s=60 if tier == "quick" else 600, known_labels=kl, known_cases=kc, shard=sh, nshards=n))
     return out
